@@ -1,5 +1,222 @@
-(** C06 -- Importing GDSII into the raw model preserves the flattened geometry. (statements follow) *)
+(** C06 -- Importing GDSII into the raw model preserves the flattened geometry.
+    Property theorems only; proofs are in Raw/RawGds_proofs.v and Raw/RawFlatten_proofs.v.
+
+    Model: Raw/RawGds.v ([import_lib cfg ly0 g], layout21raw/src/gds.rs GdsImporter) and
+    Raw/RawFlatten.v ([raw_flatten L i], `Layout::flatten`, over the transform model of C12).
+    Specification: Raw/RawGdsSpec.v ([gds_flatten] by GDSII semantics, [flat_equiv], labels).
+    [cfg_orig] is the importer as found, [cfg_fixed] the importer with every repair proposed in
+    work/c06/fix-*.patch (and C07's Pico repair); [cfg_without_*] has one repair missing. *)
 From Coq Require Import ZArith List String Bool.
-From L21 Require Import Raw.RawData Raw.RawGds Raw.RawFlatten Raw.RawGdsSpec Raw.RawGdsCheck Raw.RawGds_proofs Raw.RawFlatten_proofs.
+From L21 Require Import Base.Hex Raw.RawData Raw.RawGds Raw.RawFlatten Raw.RawGdsCheck Raw.RawGds_proofs Raw.RawFlatten_proofs.
+From L21 Require Gds.GdsData Raw.RawGdsSpec Geom.Transform.
 Import ListNotations.
 Local Open Scope Z_scope.
+
+Module G := Gds.GdsData.
+Module S := Raw.RawGdsSpec.
+Module T := Geom.Transform.
+
+(** * Closed witnesses: each defect of the importer as found breaks the property, and the
+    proposed repair removes it.  One small library per defect. *)
+Definition zdt : G.datetimes := G.mkDTs (G.mkDT 0 0 0 0 0 0) (G.mkDT 0 0 0 0 0 0).
+Definition nano : Z * Z := (4562254508917369340, 4472406533629990549).      (* GdsUnits(1e-3, 1e-9) *)
+Definition wlib (structs : list G.gstruct) : G.library := G.mkLib (unhex "6c6962") 3 zdt nano structs.
+Definition nm_leaf : G.bytes := unhex "6c656166".
+Definition nm_top : G.bytes := unhex "746f70".
+Definition pts (l : list (Z * Z)) : list G.point := map (fun p => G.mkPt (fst p) (snd p)) l.
+(** leaf: one 3 x 2 rectangle on layer 1 / datatype 0 *)
+Definition leaf : G.gstruct :=
+  G.mkStruct nm_leaf zdt [G.EBoundary (G.mkBoundary 1 0 (pts [(0,0); (3,0); (3,2); (0,2); (0,0)]) None None [])].
+Definition aref (xy : list (Z * Z)) (cols rows : Z) (st : option G.strans) : G.element :=
+  G.EAref (G.mkAref nm_leaf (pts xy) cols rows st None None []).
+Definition sref (xy : Z * Z) (st : option G.strans) : G.element :=
+  G.ESref (G.mkSref nm_leaf (G.mkPt (fst xy) (snd xy)) st None None []).
+Definition top (es : list G.element) : G.gstruct := G.mkStruct nm_top zdt es.
+Definition deg90 : Z := 4636033603912859648.   (* 90.0 *)
+Definition two_f : Z := 4611686018427387904.   (* 2.0 *)
+
+Definition cfg_without_dims : cfg := mkcfg false true true true true true true true true true.
+Definition cfg_without_cap : cfg := mkcfg true false true true true true true true true true.
+Definition cfg_without_deg : cfg := mkcfg true true false true true true true true true true.
+Definition cfg_without_lattice : cfg := mkcfg true true true false true true true true true true.
+Definition cfg_without_emptyxy : cfg := mkcfg true true true true false true true true true true.
+Definition cfg_without_mag : cfg := mkcfg true true true true true false true true true true.
+Definition cfg_without_width : cfg := mkcfg true true true true true true false true true true.
+Definition cfg_without_pathdiag : cfg := mkcfg true true true true true true true true true false.
+
+(** what the correspondence checker says about the model's own output on a library:
+    0 = the property holds, 1 = the specification is silent, 2 = the property fails *)
+Definition verdict_of (c : cfg) (g : G.library) : Z :=
+  prop_verdict g
+    (match import_lib c [] g with
+     | IOk L => MLib L (map (fun i => match raw_flatten L i with
+                                     | T.Ok es => FOk es | T.Panic => FPanic | T.OutOfModel => FNotRun end)
+                            (seq 0 (List.length (lib_cells L))))
+     | IErr _ => MErr
+     | _ => MPanic
+     end).
+
+(** (w1) COLS = 0: a division by zero (a panic is neither an error nor a library). *)
+Definition w_zero_cols : G.library := wlib [leaf; top [aref [(0,0); (20,0); (0,30)] 0 3 None]].
+Theorem C06_zero_dims_orig_refuted :
+  S.malformed w_zero_cols /\ import_lib cfg_orig [] w_zero_cols = IPanic
+  /\ import_lib cfg_without_dims [] w_zero_cols = IPanic.
+Proof. vm_compute. repeat split; reflexivity. Qed.
+Theorem C06_zero_dims_repaired : import_lib cfg_fixed [] w_zero_cols = IErr EArrayDims.
+Proof. vm_compute. reflexivity. Qed.
+
+(** (w2) 200 x 200: the capacity `rows * cols` overflows i16. *)
+Definition w_capacity : G.library := wlib [leaf; top [aref [(0,0); (1000,0); (0,800)] 200 200 None]].
+Theorem C06_capacity_orig_refuted :
+  import_lib cfg_orig [] w_capacity = IPanic /\ import_lib cfg_without_cap [] w_capacity = IPanic.
+Proof. vm_compute. split; reflexivity. Qed.
+Theorem C06_capacity_repaired :
+  match import_lib cfg_fixed [] w_capacity with
+  | IOk L => match nth_error (lib_cells L) 1 with
+             | Some c => option_map (fun l => Z.of_nat (List.length (lay_insts l))) (c_layout c)
+             | None => None
+             end
+  | _ => None
+  end = Some 40000.
+Proof. vm_compute. reflexivity. Qed.
+
+(** (w3) the angle of array instances is stored in radians: ANGLE 90 becomes 1.5707963267948966,
+    while `Instance::angle` and `Transform::from_instance` are in degrees.  (A 1 x 1 array: the
+    lattice plays no part.) *)
+Definition w_radians : G.library :=
+  wlib [leaf; top [aref [(4,4); (4,4); (4,4)] 1 1 (Some (G.mkStrans false false false None (Some deg90)))]].
+Definition first_inst_angle (r : ires library) : option (option Z) :=
+  match r with
+  | IOk L => match nth_error (lib_cells L) 1 with
+             | Some c => match c_layout c with
+                         | Some l => match lay_insts l with i :: _ => Some (i_angle i) | [] => None end
+                         | None => None
+                         end
+             | None => None
+             end
+  | _ => None
+  end.
+Theorem C06_radians_orig_refuted :
+  S.right_angle w_radians /\ S.malformedb w_radians = false /\
+  first_inst_angle (import_lib cfg_orig [] w_radians) = Some (Some 4609753056924675352) /\      (* pi/2 *)
+  first_inst_angle (import_lib cfg_without_deg [] w_radians) = Some (Some 4609753056924675352) /\
+  verdict_of cfg_without_deg w_radians = 2.
+Proof. vm_compute. repeat split; reflexivity. Qed.
+Theorem C06_radians_repaired :
+  first_inst_angle (import_lib cfg_fixed [] w_radians) = Some (Some deg90) /\ verdict_of cfg_fixed w_radians = 0.
+Proof. vm_compute. split; reflexivity. Qed.
+
+(** (w4) a 2 x 3 array rotated by 90 degrees, XY as GDSII defines them (the lattice vectors lie as
+    in the parent cell: columns run up, rows run left): the importer as found returns no instance
+    at all and reports nothing -- six placements dropped. *)
+Definition w_lattice_gds : G.library :=
+  wlib [leaf; top [aref [(0,0); (0,20); (-30,0)] 2 3 (Some (G.mkStrans false false false None (Some deg90)))]].
+Definition inst_count (r : ires library) : option nat :=
+  match r with
+  | IOk L => match nth_error (lib_cells L) 1 with
+             | Some c => option_map (fun l => List.length (lay_insts l)) (c_layout c)
+             | None => None
+             end
+  | _ => None
+  end.
+Theorem C06_lattice_dropped_orig_refuted :
+  S.right_angle w_lattice_gds /\ S.malformedb w_lattice_gds = false /\
+  inst_count (import_lib cfg_orig [] w_lattice_gds) = Some O /\
+  inst_count (import_lib cfg_without_lattice [] w_lattice_gds) = Some O /\
+  verdict_of cfg_without_lattice w_lattice_gds = 2.
+Proof. vm_compute. repeat split; reflexivity. Qed.
+(** (w4') the same array with axis-parallel XY: as found the lattice is rotated once more, so the
+    copies land at (-10 i, 10 j) instead of (10 i, 10 j). *)
+Definition w_lattice_axis : G.library :=
+  wlib [leaf; top [aref [(0,0); (20,0); (0,30)] 2 3 (Some (G.mkStrans false false false None (Some deg90)))]].
+Theorem C06_lattice_rotated_orig_refuted :
+  S.right_angle w_lattice_axis /\ inst_count (import_lib cfg_without_lattice [] w_lattice_axis) = Some 6%nat /\
+  verdict_of cfg_without_lattice w_lattice_axis = 2.
+Proof. vm_compute. repeat split; reflexivity. Qed.
+Theorem C06_lattice_repaired :
+  inst_count (import_lib cfg_fixed [] w_lattice_gds) = Some 6%nat /\ verdict_of cfg_fixed w_lattice_gds = 0 /\
+  verdict_of cfg_fixed w_lattice_axis = 0.
+Proof. vm_compute. repeat split; reflexivity. Qed.
+
+(** (w5) a BOUNDARY without coordinates: `pts[0]` panics. *)
+Definition w_empty_xy : G.library := wlib [top [G.EBoundary (G.mkBoundary 1 0 [] None None [])]].
+Theorem C06_empty_xy_orig_refuted :
+  S.malformed w_empty_xy /\ import_lib cfg_orig [] w_empty_xy = IPanic /\ import_lib cfg_without_emptyxy [] w_empty_xy = IPanic.
+Proof. vm_compute. repeat split; reflexivity. Qed.
+Theorem C06_empty_xy_repaired : import_lib cfg_fixed [] w_empty_xy = IErr EEmptyXY.
+Proof. vm_compute. reflexivity. Qed.
+
+(** (w6) SREF with MAG 2: imported as if MAG were 1 (the copy is half the size it should be). *)
+Definition w_mag : G.library :=
+  wlib [leaf; top [sref (1,1) (Some (G.mkStrans false false false (Some two_f) None))]].
+Theorem C06_sref_mag_orig_refuted :
+  S.malformed w_mag /\ inst_count (import_lib cfg_orig [] w_mag) = Some 1%nat /\
+  inst_count (import_lib cfg_without_mag [] w_mag) = Some 1%nat.
+Proof. vm_compute. repeat split; reflexivity. Qed.
+Theorem C06_sref_mag_repaired : import_lib cfg_fixed [] w_mag = IErr EMag.
+Proof. vm_compute. reflexivity. Qed.
+
+(** (w7) PATH with WIDTH -4 (an absolute width of 4): `as usize` makes it 2^64 - 4. *)
+Definition w_neg_width : G.library :=
+  wlib [top [G.EPath (G.mkPath 1 0 (pts [(0,0); (10,0)]) (Some (-4)) None None None None None [])]].
+Theorem C06_neg_width_orig_refuted :
+  S.right_angle w_neg_width /\ S.malformedb w_neg_width = false /\
+  verdict_of cfg_orig w_neg_width = 2 /\ verdict_of cfg_without_width w_neg_width = 2.
+Proof. vm_compute. repeat split; reflexivity. Qed.
+Theorem C06_neg_width_repaired : verdict_of cfg_fixed w_neg_width = 0.
+Proof. vm_compute. reflexivity. Qed.
+
+(** (w8) a TEXT on the layer of a PATH with a diagonal segment: `Path::contains` is
+    `unimplemented!` there, the import panics. *)
+Definition w_diag_label : G.library :=
+  wlib [top [G.EPath (G.mkPath 1 0 (pts [(0,0); (10,10)]) (Some 4) None None None None None []);
+             G.EText (G.mkText (unhex "41") 1 0 (G.mkPt 5 5) None None None None None None [])]].
+Theorem C06_diag_label_orig_refuted :
+  S.right_angle w_diag_label /\ S.malformedb w_diag_label = false /\
+  import_lib cfg_orig [] w_diag_label = IPanic /\ import_lib cfg_without_pathdiag [] w_diag_label = IPanic.
+Proof. vm_compute. repeat split; reflexivity. Qed.
+Theorem C06_diag_label_repaired : verdict_of cfg_fixed w_diag_label = 0.
+Proof. vm_compute. reflexivity. Qed.
+
+(** Non-vacuity: a three-level hierarchy with a reflected and rotated SREF, a rotated AREF in GDSII
+    convention, a labelled rectangle given clockwise from its upper-right corner, a path and a box
+    is imported by the repaired importer, and every cell flattens to exactly [gds_flatten]. *)
+Definition nm_mid : G.bytes := unhex "6d6964".
+Definition w_hier : G.library :=
+  wlib [top [G.ESref (G.mkSref nm_mid (G.mkPt 100 200) (Some (G.mkStrans true false false None (Some deg90))) None None []);
+             G.EBox (G.mkBox 2 1 (pts [(0,0); (0,5); (7,5); (7,0); (0,0)]) None None [])];
+        G.mkStruct nm_mid zdt
+          [aref [(10,0); (10,20); (-20,0)] 2 3 (Some (G.mkStrans false false false None (Some deg90)));
+           G.EPath (G.mkPath 3 0 (pts [(0,0); (10,0); (10,10)]) (Some 2) None None None None None [])];
+        G.mkStruct nm_leaf zdt
+          [G.EBoundary (G.mkBoundary 1 0 (pts [(3,2); (3,0); (0,0); (0,2); (3,2)]) None None []);
+           G.EText (G.mkText (unhex "566464") 1 0 (G.mkPt 1 1) None None None None None None [])]].
+Example C06_nonvacuous :
+  S.right_angle w_hier /\ S.malformedb w_hier = false /\ verdict_of cfg_fixed w_hier = 0 /\
+  (exists L, import_lib cfg_fixed [] w_hier = IOk L /\ List.length (lib_cells L) = 3%nat /\
+             match raw_flatten L 2, S.gds_flatten w_hier nm_top with
+             | T.Ok es, S.SOk fs => S.flat_equivb (lib_layers L) es fs = true /\ List.length es = 8%nat
+             | _, _ => False
+             end).
+Proof.
+  split; [vm_compute; reflexivity|]. split; [vm_compute; reflexivity|]. split; [vm_compute; reflexivity|].
+  eexists. split; [vm_compute; reflexivity|]. vm_compute. repeat split; reflexivity.
+Qed.
+
+Print Assumptions C06_zero_dims_orig_refuted.
+Print Assumptions C06_zero_dims_repaired.
+Print Assumptions C06_capacity_orig_refuted.
+Print Assumptions C06_capacity_repaired.
+Print Assumptions C06_radians_orig_refuted.
+Print Assumptions C06_radians_repaired.
+Print Assumptions C06_lattice_dropped_orig_refuted.
+Print Assumptions C06_lattice_rotated_orig_refuted.
+Print Assumptions C06_lattice_repaired.
+Print Assumptions C06_empty_xy_orig_refuted.
+Print Assumptions C06_empty_xy_repaired.
+Print Assumptions C06_sref_mag_orig_refuted.
+Print Assumptions C06_sref_mag_repaired.
+Print Assumptions C06_neg_width_orig_refuted.
+Print Assumptions C06_neg_width_repaired.
+Print Assumptions C06_diag_label_orig_refuted.
+Print Assumptions C06_diag_label_repaired.
